@@ -5,5 +5,24 @@ CHECKS = {
    text='Every coefficient recurrence behind the overloaded elementary functions is verified against the chain-rule spec function for all D>=1, all coefficient values in the domain and (by direction-parametricity) all P and shapes; obligations = discharged on the unchanged tree. The part that cannot be brought under contract (name dispatch, complex dtypes) is a bounded native check, reported separately.',
    note='Trusted: spec recurrences = Taylor coefficients (A1, sympy-audited), NumPy model of the executor (A3/A4/A9, audited natively every run), reals for floats (A6), external scalar functions (A5), Sum lemma schemas (A8, Lean), z3 (A11).'),
 }
+_EXPL = 'Run-time contracts attached to the real functions (installed by the checker, no repository edit), evaluated over a bounded, enumerated+seeded program corpus; labelled bounded, never counted as proved. '
+CHECKS.update({
+ 'C03': dict(level='exploration', engine='bounded', design_ref='DESIGN.md 7.1, 8, 9 (C03), 13',
+   technique='structural signature-conformance obligations over the tracer AST + run-time adjoint-identity contract on CGraph.pullback over a bounded program corpus',
+   text=_EXPL + 'Adjoint identity <xbar,v> = <ybar,F\'(x)v> mod t^D with F\'(x)v obtained from forward propagation alone (order-shift at degree 2D), random non-symmetric seeds non-zero at all orders, distinct base points per direction. The universally quantified statement over programs is outside what per-call contracts decide; the proved part is the SIG obligations (every recording site has a conforming pullback signature).',
+   note='Forward mode is the oracle (C01/C02/C07 contracts + C12). Programs <= 6 ops, D <= 4, P <= 3. A structural SIG candidate is reported only when reproduced natively.'),
+ 'C04': dict(level='exploration', engine='bounded', design_ref='DESIGN.md 8, 9 (C04)',
+   technique='run-time contracts on the eight CGraph drivers, exact sympy derivatives as oracle, bounded program corpus',
+   text=_EXPL + 'Every driver is called at a point different from the recording point, for ndarray and UTPM (D=1..3) recordings, and compared with exact derivatives obtained by running the same program text on sympy symbols; jacobian(UTPM) against forward propagation alone.',
+   note='sympy differentiation/evaluation trusted; tolerance 1e-9; programs <= 4 ops, N=4.'),
+ 'C05': dict(level='exploration', engine='bounded', design_ref='DESIGN.md 7.5, 8, 9 (C05), 13',
+   technique='run-time record/replay contract (bit-for-bit) + node bookkeeping invariants over a bounded program corpus',
+   text=_EXPL + 'Values while recording, node list bookkeeping (one node per executed operation, sequential IDs, operands first, nothing while tracing is off) and re-evaluation on unrelated ndarray/UTPM inputs in shuffled order, all compared bit-for-bit with direct evaluation of the program.',
+   note='A property of the tracer object graph and Python dynamic dispatch: no contract within reach of a deductive verifier here (DESIGN 13).'),
+ 'C06': dict(level='exploration', engine='bounded', design_ref='DESIGN.md 7.2, 7.4, 8, 9 (C06), 13',
+   technique='run-time contract: every call of a random call history on one graph must equal the same call on a freshly recorded graph',
+   text=_EXPL + 'Histories over forward evaluations (varying point, D, P, kind), several reverse sweeps per forward, driver calls, a second graph recorded/evaluated in between, repetitions. Expected value of each call computed from its arguments alone (fresh graph recorded at another point).',
+   note='History length <= 12; whole-history quantifier not decidable by per-call contracts (DESIGN 13). The per-call ingredients (pullbacks do not write forward values) are proved/checked under C14.'),
+})
 NOT_APPLICABLE = {p: 'check under construction in this session (see DESIGN.md build order); not yet claimed' for p in
-                  ['C02', 'C03', 'C04', 'C05', 'C06', 'C07', 'C08', 'C09', 'C10', 'C11', 'C12', 'C13', 'C14', 'C15', 'C16', 'C17']}
+                  ['C02', 'C07', 'C08', 'C09', 'C10', 'C11', 'C12', 'C13', 'C14', 'C15', 'C16', 'C17']}
